@@ -1,0 +1,8 @@
+//go:build !verif
+
+// Package verifhook is a no-op unless the module is built with the "verif"
+// build tag (used by external verification tooling only).
+package verifhook
+
+// At marks a point of interest; it does nothing in normal builds.
+func At(site string, n int) {}
